@@ -253,3 +253,22 @@ func zzH_C10_dirDelete() {
 		verifReach("dir-kept")
 	}
 }
+
+
+// a stage that polls the stop flags while the user's stop request is being recorded (all interleavings): it either
+// sees no stop yet or the stop of the kind the user chose — never a plain stop for a stop-and-delete
+func zzH_C10_stopRace() {
+	t := newTransfer(&zzSink10{}, nil, false, nil)
+	del := verifNondetBool()
+	var got error
+	go t.stopTransferringFiles(del)
+	go func() { got = t.checkStop() }()
+	verifQuiesce()
+	if got != nil {
+		verifAssert(zzIsStopErr(got, del), "a stage polling during the stop request saw a stop of the other kind")
+		verifReach("seen")
+	} else {
+		verifReach("not-yet")
+	}
+	verifAssert(zzIsStopErr(t.checkStop(), del), "stop kind after the request")
+}
